@@ -185,6 +185,10 @@ FIXED = [
      "(((fn F ((PA 5) (QB 0)) ((print PA) (print QB) (ret (b 3 PA QB))))) ((call F ()) (call F (1)) (print (call F (1 2))) (print (call F ()))))"),
     ("FUNCTION G(PA=3, QB, RC=7, KA){ RETURN(((PA*1000)+(QB*100))+((RC*10)+KA)) } PRINT(G()) PRINT(G(1)) PRINT(G(1,2)) PRINT(G(1,2,3)) PRINT(G(1,2,3,4))",
      "(((fn G ((PA 3) (QB 0) (RC 7) (KA 0)) ((ret (b 3 (b 3 (b 0 PA 1000) (b 0 QB 100)) (b 3 (b 0 RC 10) KA)))))) ((print (call G ())) (print (call G (1))) (print (call G (1 2))) (print (call G (1 2 3))) (print (call G (1 2 3 4)))))"),
+    # a loop condition is any value: it holds while the value is not 0, negative numbers included (as for IF)
+    ("INT N=0-3 WHILE(N){ PRINT(N) n60 N++ } PRINT(N)", "(() ((decl N (b 4 0 3)) (while N ((print N) (note 60) (inc N 1))) (print N)))"),
+    ("FOR(INT I=0-2; I; I++){ PRINT(I) n61 } PRINT(I)", "(() ((for I (b 4 0 2) I (inc I 1) ((print I) (note 61))) (print I)))"),
+    ("INT N=0-2 IF(N){ PRINT(1) }ELSE{ PRINT(2) } WHILE(N+1){ N++ PRINT(N) }", "(() ((decl N (b 4 0 2)) (if N ((print 1)) ((print 2))) (while (b 3 N 1) ((inc N 1) (print N)))))"),
     ("INT X=5 FUNCTION F(A=2){ INT X=A+1 X=X+1 Result=X } PRINT(F()) PRINT(X)", "(((fn F ((A 2)) ((decl X (b 3 A 1)) (assign X (b 3 X 1)) (assign Result X)))) ((decl X 5) (print (call F ())) (print X)))"),
 ]
 
